@@ -12,7 +12,7 @@
    error sets; it is not proved for all documents. *)
 From Coq Require Import ZArith List String Bool.
 From TV Require Import Py.Prelude Model.Schema Model.ImplInput Model.ImplExec Model.Envelope
-     Model.ImplValidate Model.SpecValidate Model.RunValidate Proofs.ValidateProofs.
+     Model.ImplValidate Model.SpecValidate Model.RunValidate Proofs.ValidateProofs Gen.Wiring_gen Proofs.Wiring.
 Import ListNotations.
 Open Scope string_scope.
 Open Scope list_scope.
@@ -49,6 +49,15 @@ Theorem C07_repeated_input_field_reported path (fields : list (string * lit)) :
   uniq_errors "input-object-field-uniqueness" fst (fun kv => lit_loc (snd kv)) path fields <> [].
 Proof. intros H E. apply input_field_uniqueness_rule in E. congruence. Qed.
 
+(* tie to the current source (regenerated on every run): every rule the project documents as
+   supported is registered in RULE_SET and invoked from the walk, at exactly the sites the model
+   transcribes, and only the cycle rule aborts *)
+Theorem C07_source_invokes_every_supported_rule :
+  src_call_sites = model_call_sites /\ map fst (filter snd src_rule_set) = model_aborting_rules /\
+  forallb (fun r => existsb (fun kv => String.eqb (fst kv) r) src_rule_set &&
+                    existsb (fun fr => String.eqb (snd fr) r) src_call_sites) supported_rules = true.
+Proof. exact (conj call_sites_are_the_models (conj aborting_rules_are_the_models every_supported_rule_is_registered_and_invoked)). Qed.
+
 (* a cyclic fragment graph is always reported: the rule (with distinct fragment names -- repeated names
    are reported by their own rule) answers Some [] exactly for acyclic graphs, whatever the fuel;
    emitting its verdict puts the walk in a refusing state, and no later rule can undo that *)
@@ -72,6 +81,7 @@ Definition cyc : list fragment :=
 Example C07_cycle_reported : NoDup (map fr_name cyc) /\ cycle_rule cyc <> Some [].
 Proof. split; [repeat constructor; cbn; intuition discriminate|vm_compute; discriminate]. Qed.
 
+Print Assumptions C07_source_invokes_every_supported_rule.
 Print Assumptions C07_cycle_rule_exact.
 Print Assumptions C07_fragment_cycle_refuses.
 Print Assumptions C07_refusal_is_never_undone.
